@@ -1880,12 +1880,56 @@ pub fn apply_bug(s: &mut SpriteSpec, bug: &str, r: &mut Rng, scale: usize) -> St
         }
         "tileset-dup-id" => {
             ensure_tilemap(s, r);
-            let mut t = s.tilesets[0].clone();
-            t.count = 1;
-            t.pixels.truncate(t.tw as usize * t.th as usize * bpp);
+            let first = s.tilesets[0].clone();
+            let mut t = first.clone();
             t.name = "dup".into();
-            s.tilesets.push(t);
-            "two tilesets with one id (second has 1 tile)".into()
+            if r.chance(1, 3) {
+                // the original variant: a second, smaller, embedded tileset
+                t.count = 1;
+                t.pixels.truncate(t.tw as usize * t.th as usize * bpp);
+                s.tilesets.push(t);
+                return "two tilesets with one id (second has 1 tile)".into();
+            }
+            // a second chunk for the same id whose metadata, flags and pixel data are drawn
+            // independently: embedded / external-only / both / neither, other tile count or size,
+            // pixels consistent with its own header or inherited from the first chunk
+            t.count = *r.pick(&[1u32, first.count, first.count + 2, first.count.saturating_sub(1).max(1), first.count * 2 + 1]);
+            let (tw, th) = *r.pick(&[(first.tw, first.th), (first.tw * 2, first.th), (first.tw, first.th * 2), (1, 1), (first.tw + 1, first.th)]);
+            t.tw = tw;
+            t.th = th;
+            t.flags = *r.pick(&[6u32, 2, 1, 1, 5, 7, 0]);
+            if t.flags & 2 != 0 {
+                if r.chance(3, 4) {
+                    let dom = {
+                        let d = index_domain(s);
+                        if d.is_empty() {
+                            vec![0]
+                        } else {
+                            d
+                        }
+                    };
+                    t.pixels = pixels(r, s.fmt, t.count as usize * tw as usize * th as usize, &dom);
+                }
+            } else {
+                t.pixels.clear();
+            }
+            let d = format!(
+                "two tileset chunks with one id: second declares {} tiles of {}x{}, flags {} ({} pixel bytes); first {} tiles of {}x{}",
+                t.count,
+                tw,
+                th,
+                t.flags,
+                t.pixels.len(),
+                first.count,
+                first.tw,
+                first.th
+            );
+            if r.chance(1, 3) {
+                s.tilesets.insert(0, t);
+            } else {
+                s.tilesets.push(t);
+            }
+            d
         }
         "tileset-external-only" => {
             ensure_tilemap(s, r);
@@ -1943,7 +1987,14 @@ pub fn apply_bug(s: &mut SpriteSpec, bug: &str, r: &mut Rng, scale: usize) -> St
                     entries: vec![([0, 0, 0, 255], None)],
                 });
             }
-            for f in 0..nf {
+            // scale % 3: a cel in every frame / only in the first / only in the last frame (the
+            // other frames are then empty: 16 bytes each, the cheapest way to declare a frame)
+            let which: Vec<usize> = match scale % 3 {
+                0 => (0..nf).collect(),
+                1 => vec![0],
+                _ => vec![nf - 1],
+            };
+            for f in which {
                 s.cels.push(CelSpec {
                     frame: f as u16,
                     layer: want as u16,
@@ -1957,7 +2008,7 @@ pub fn apply_bug(s: &mut SpriteSpec, bug: &str, r: &mut Rng, scale: usize) -> St
             }
             s.tags.clear();
             s.tag_ud_count = 0;
-            format!("{} frames each with a cel on layer 65535", nf)
+            format!("{} frames, {} with a cel on layer 65535", nf, ["each", "the first", "the last"][scale % 3])
         }
         "many-tags" => {
             let n = scale.clamp(2, 65535);
